@@ -55,6 +55,11 @@ pub struct XferCfg {
     pub resend_request: bool,
     /// writer: the process dies after having sent this many DATA datagrams (possibly mid-window)
     pub die_after_blocks: Option<u64>,
+    /// writer: right after sending this block (1-based index) also send a stray packet
+    /// (0 = OACK, 1 = ACK 0, 2 = garbage) to the transfer endpoint
+    pub stray_after_block: Option<(u64, u8)>,
+    /// reader: answer the OACK with this block number instead of 0 (a confused client)
+    pub bad_oack_ack: Option<u16>,
     /// reader: a slow client that waits this long before every ACK it sends
     pub think_ns: Ns,
     /// a finished client closes its socket at once (what real clients do): later datagrams bounce
@@ -76,6 +81,8 @@ impl XferCfg {
             script: vec![],
             resend_request: true,
             die_after_blocks: None,
+            stray_after_block: None,
+            bad_oack_ack: None,
             think_ns: 0,
             close_when_done: false,
         }
@@ -410,7 +417,15 @@ impl Peer for Reader {
             Some(Pkt::Oack(o)) => {
                 if self.rx == 1 && !self.cfg.opts.is_empty() {
                     self.neg = adopt(&self.cfg, &o);
-                    self.send_ack(cx, 0);
+                    match self.cfg.bad_oack_ack {
+                        Some(k) => {
+                            cx.adversarial("bogus-ack");
+                            if let Some(t) = self.tid {
+                                cx.send(t, &rfc::encode(&Pkt::Ack(k)));
+                            }
+                        }
+                        None => self.send_ack(cx, 0),
+                    }
                     self.arm(cx);
                 }
             }
@@ -567,6 +582,17 @@ impl Writer {
             let d = rfc::encode(&Pkt::Data { n: i as u16, payload: self.block(i).to_vec() });
             self.blocks_sent += 1;
             cx.send(t, &d);
+            if let Some((at, kind)) = self.cfg.stray_after_block {
+                if at == i {
+                    cx.adversarial("stray");
+                    let bytes = match kind {
+                        0 => rfc::encode(&Pkt::Oack(vec![("blksize".into(), self.neg.blksize.to_string())])),
+                        1 => rfc::encode(&Pkt::Ack(0)),
+                        _ => vec![0x00, 0x09, 0xff],
+                    };
+                    cx.send(t, &bytes);
+                }
+            }
         }
     }
 
